@@ -370,7 +370,9 @@ def run(ctx):
         parents2 = m2.parents()
         # body-for-operation: `<u>.circuit` consumed as a sequence of operations, where <u> is derived from `<op>.untagged`
         for fnn2 in [f for f in ast.walk(m2.tree) if isinstance(f, (ast.FunctionDef, ast.AsyncFunctionDef))]:
-            if '.circuit' not in ast.unparse(fnn2) or 'untagged' not in ast.unparse(fnn2):
+            cop_params = {a.arg for a in fnn2.args.posonlyargs + fnn2.args.args + fnn2.args.kwonlyargs
+                          if a.annotation is not None and ast.unparse(a.annotation).strip('\'"').split('.')[-1] == 'CircuitOperation'}
+            if '.circuit' not in ast.unparse(fnn2) or ('untagged' not in ast.unparse(fnn2) and not cop_params):
                 continue
             dep = name_deps(fnn2, {}, source_of=lambda x: {'UNTAGGED'} if isinstance(x, ast.Attribute) and x.attr == 'untagged' else None)
             inner_fns = {id(x) for f in ast.walk(fnn2) if f is not fnn2 and isinstance(f, (ast.FunctionDef, ast.AsyncFunctionDef)) for x in ast.walk(f)}
@@ -378,7 +380,8 @@ def run(ctx):
                 if id(n) in inner_fns or not (isinstance(n, ast.Attribute) and n.attr == 'circuit' and isinstance(n.ctx, ast.Load)):
                     continue
                 base = n.value
-                from_untagged = (isinstance(base, ast.Attribute) and base.attr == 'untagged') or (isinstance(base, ast.Name) and 'UNTAGGED' in dep.get(base.id, set()))
+                from_untagged = (isinstance(base, ast.Attribute) and base.attr == 'untagged') or (isinstance(base, ast.Name) and 'UNTAGGED' in dep.get(base.id, set())) \
+                    or (isinstance(base, ast.Name) and base.id in cop_params)     # a helper that is handed the (untagged) sub-circuit operation
                 if not from_untagged:
                     continue
                 par = parents2.get(n)
@@ -391,6 +394,8 @@ def run(ctx):
                     consumed = f'read through .{par.attr}()'
                 elif isinstance(par, ast.Subscript) and par.value is n:
                     consumed = 'indexed'
+                elif isinstance(par, ast.Call) and n in par.args and (call_name(par) or '').split('.')[-1] == 'resolve_parameters':
+                    consumed = 'resolved into a circuit of its own'
                 if consumed is None:
                     continue
                 btxt = ast.unparse(base)
@@ -404,6 +409,12 @@ def run(ctx):
                         guards += [(a_, True) for a_ in (pp.test.values if isinstance(pp.test, ast.BoolOp) and isinstance(pp.test.op, ast.And) else [pp.test])]
                     q = pp
                 ok = False
+                for a, pol in list(guards):
+                    # a named condition (is_merged_component = isinstance(...) and tag in op.tags) stands for its conjuncts
+                    if pol and isinstance(a, ast.Name):
+                        binds = [s_.value for s_ in ast.walk(fnn2) if isinstance(s_, ast.Assign) and len(s_.targets) == 1 and isinstance(s_.targets[0], ast.Name) and s_.targets[0].id == a.id]
+                        if len(binds) == 1:
+                            guards += [(v, True) for v in (binds[0].values if isinstance(binds[0], ast.BoolOp) and isinstance(binds[0].op, ast.And) else [binds[0]])]
                 for a, pol in guards:
                     if not pol:
                         continue
